@@ -269,4 +269,211 @@ theorem veq_subDestroyKeys (w : World) (s : Nat) (l : List (Nat × Nat)) :
     simp only [subDestroyKeys]
     exact (veq_detachReceiver w p s).trans (ih _)
 
+/-! ### PART 2 — the API operations on subscribers preserve `XInv` -/
+
+theorem not_mem_of_getS_none {w : World} {s : Nat} (h : getS w s = none) :
+    ∀ e ∈ w.subs, e.1 ≠ s := by
+  unfold getS at h
+  simp only [Option.map_eq_none_iff, List.find?_eq_none] at h
+  intro e he
+  simpa using h e he
+
+/-- the exemption of subscriber `s` can be dropped when `s` is good -/
+theorem XInvE.unexemptS {ep : Option Nat} {w : World} {s : Nat} (h : XInvE ep (some s) w)
+    (hg : ∀ e ∈ w.subs, e.1 = s → GoodS e.2) : XInvE ep none w := by
+  refine ⟨h.nodup, h.pubs, ?_⟩
+  intro e he _
+  by_cases hs : e.1 = s
+  · exact hg e he hs
+  · exact h.subs e he (fun hh => hs (Option.some.inj hh))
+
+theorem xinvE_setS_unexempt {ep : Option Nat} {w : World} {s : Nat} (h : XInvE ep (some s) w)
+    (X : Sub) (hg : GoodS X) : XInvE ep none (setS w s X) := by
+  refine (h.setS s X (fun _ => hg)).unexemptS ?_
+  intro e he hs
+  rcases mem_setS he with rfl | ⟨_, h2⟩
+  · exact hg
+  · exact absurd hs h2
+
+theorem xinv_panic {w : World} (h : XInv w) : XInv { w with panicked := true } :=
+  h.of_veq (veq_panic w)
+
+theorem xinv_finishPanic {w0 : World} {r : World × String} (h0 : XInv w0) (hr : XInv r.1) :
+    XInv (finishPanic w0 r).1 := by
+  unfold finishPanic
+  split
+  · exact xinv_panic h0
+  · exact hr
+
+/-- `subDestroyIfUnreferenced` repairs the exempted subscriber -/
+theorem xinv_subDestroy {ep : Option Nat} {w : World} {s : Nat} (h : XInvE ep (some s) w) :
+    XInvE ep none (subDestroyIfUnreferenced w s) := by
+  simp only [subDestroyIfUnreferenced]
+  split
+  · rename_i hS
+    exact h.unexemptS (fun e he hs => absurd hs (not_mem_of_getS_none hS e he))
+  · rename_i S hS
+    split
+    · rename_i hc
+      refine h.unexemptS ?_
+      intro e he hs
+      have he' : (s, e.2) ∈ w.subs := by rw [← hs]; exact he
+      have : e.2 = S := assoc_unique h.nodup.subs he' (mem_of_getS hS)
+      rw [this]
+      intro hex
+      simp only [Bool.or_eq_true, Bool.not_eq_eq_eq_not, Bool.not_true, hex] at hc
+      rcases hc with (hc | hc) | hc
+      · exact Or.inl hc
+      · right
+        intro hh
+        rw [hh] at hc
+        simp at hc
+      · cases hc
+    · refine xinvE_setS_unexempt (h.of_veq (veq_subDestroyKeys w s _)) _ ?_
+      intro hex
+      cases hex
+
+theorem xstep_dsub {w : World} (h : XInv w) (s : Nat) : XInv (step w (.dsub s)).1 := by
+  simp only [step]
+  cases hS : getS w s with
+  | none => exact h
+  | some S =>
+    simp only []
+    split
+    · exact h
+    · apply XInvE.toX
+      apply xinv_subDestroy
+      have h1 := ((h.toE none none).exemptS s).setS s { S with alive := false }
+        (fun hne => absurd rfl hne)
+      exact h1.of_eq rfl rfl
+
+theorem xstep_dsample {w : World} (h : XInv w) (s k : Nat) : XInv (step w (.dsample s k)).1 := by
+  simp only [step]
+  cases hS : getS w s with
+  | none => exact h
+  | some S =>
+    simp only []
+    cases hk : S.held[k]? with
+    | none => exact h
+    | some hd =>
+      simp only []
+      apply XInvE.toX
+      apply xinv_subDestroy
+      have h1 := ((h.toE none none).exemptS s).setS s { S with held := S.held.eraseIdx k }
+        (fun hne => absurd rfl hne)
+      exact h1.of_veq (veq_subRelease h1.nodup s hd)
+
+theorem xstep_recv {w : World} (h : XInv w) (s : Nat) : XInv (step w (.recv s)).1 := by
+  simp only [step]
+  cases hS : getS w s with
+  | none => exact h
+  | some S =>
+    simp only []
+    split
+    · exact h
+    · split
+      · exact xinv_panic h
+      · have h1 : XInv (subUpdate w s) := h.of_veq (veq_subUpdate h.nodup s)
+        have h2 : XInv (subReceive (subUpdate w s) s).1 := h1.of_veq (veq_subReceive h1.nodup s)
+        split
+        · rename_i heq; rw [heq] at h2; exact h2
+        · rename_i heq; rw [heq] at h2; exact h2
+        · rename_i w2 key p ch seq heq
+          rw [heq] at h2
+          simp only at h2
+          split
+          · exact h2
+          · apply XInvE.toX
+            refine (h2.toE none none).setS s _ ?_
+            intro _ _
+            right
+            simp
+
+theorem xstep_updS {w : World} (h : XInv w) (s : Nat) : XInv (step w (.updS s)).1 := by
+  simp only [step]
+  cases hS : getS w s with
+  | none => exact h
+  | some S =>
+    simp only []
+    split
+    · exact h
+    · exact xinv_finishPanic h (h.of_veq (veq_subUpdate h.nodup s))
+
+theorem xstep_has {w : World} (h : XInv w) (s : Nat) : XInv (step w (.has s)).1 := by
+  simp only [step]
+  cases hS : getS w s with
+  | none => exact h
+  | some S =>
+    simp only []
+    split
+    · exact h
+    · split
+      · exact xinv_panic h
+      · have h1 : XInv (subUpdate w s) := h.of_veq (veq_subUpdate h.nodup s)
+        split <;> exact h1
+
+theorem xinv_addS {w : World} (h : XInv w) {s : Nat} (hs : getS w s = none) (S : Sub)
+    (hg : GoodS S) : XInv { w with subs := w.subs ++ [(s, S)] } := by
+  refine ⟨⟨h.nodup.pubs, ?_⟩, h.pubs, ?_⟩
+  · simp only [List.map_append, List.map_cons, List.map_nil]
+    rw [List.nodup_append]
+    refine ⟨h.nodup.subs, by simp, ?_⟩
+    intro a ha b hb
+    simp only [List.mem_singleton] at hb
+    subst hb
+    obtain ⟨e, he, rfl⟩ := List.mem_map.mp ha
+    exact not_mem_of_getS_none hs e he
+  · intro e he
+    rcases List.mem_append.mp he with he | he
+    · exact h.subs e he
+    · simp only [List.mem_singleton] at he
+      subst he
+      exact hg
+
+theorem xinv_filterS {w : World} (h : XInv w) (f : Nat × Sub → Bool) :
+    XInv { w with subs := w.subs.filter f } := by
+  refine ⟨⟨h.nodup.pubs, ?_⟩, h.pubs, ?_⟩
+  · exact List.Nodup.sublist ((List.filter_sublist (l := w.subs)).map _) h.nodup.subs
+  · intro e he
+    exact h.subs e ((List.mem_filter.mp he).1)
+
+theorem xstep_csub {w : World} (h : XInv w) (s : Nat) (b hr : Option Nat) :
+    XInv (step w (.csub s b hr)).1 := by
+  simp only [step]
+  split
+  · exact h
+  · rename_i hnone
+    have hnone' : getS w s = none := by
+      cases hq : getS w s with
+      | none => rfl
+      | some x => rw [hq] at hnone; simp at hnone
+    split
+    · exact h
+    · rename_i buffer _
+      split
+      · exact h
+      · rename_i histReq _
+        generalize htc : (if w.cfg.expired ≥ w.cfg.borrowMax then w.cfg.expired
+          else w.cfg.borrowMax) = tbrCap
+        generalize hS0 : ({
+            buffer := buffer, histReq := histReq,
+            conns := List.replicate w.cfg.maxPubs none,
+            storage := SlotMap.init (tbrCap + w.cfg.maxPubs), tbrCap := tbrCap,
+            snapCtr := w.pubReg.counter, snap := w.pubReg.slots } : Sub) = S0
+        have hal0 : S0.alive = true := by subst hS0; rfl
+        have h0 : XInv { w with subs := w.subs ++ [(s, S0)] } :=
+          xinv_addS h hnone' S0 (fun _ => Or.inl hal0)
+        have h1 := h0.of_veq (veq_subForceUpdate h0.nodup s)
+        generalize subForceUpdate { w with subs := w.subs ++ [(s, S0)] } s = w1 at h1 ⊢
+        split
+        · rename_i reg slot S1 hadd hS1
+          apply xinv_finishPanic h
+          have h2 : VEq w1 (setS w1 s { S1 with slot := slot }) := veq_setS h1.nodup hS1 rfl
+          exact h1.of_veq (h2.trans (VEq.of_eq rfl rfl))
+        · apply xinv_finishPanic h
+          apply xinv_filterS
+          split
+          · exact h1.of_veq (veq_subDestroyKeys w1 s _)
+          · exact h1
+
 end Iox2.PubSub.C17P
